@@ -28,6 +28,7 @@ from typing import (
 
 from .testcases import Testcase
 from .util import (
+    LithiumError,
     divide_rounding_up,
     is_power_of_two,
     largest_power_of_two_smaller_than,
@@ -1677,6 +1678,12 @@ class CollapseEmptyBraces(Minimize):
 
             # Re-parse the modified testcase
             new_tc = iterator.testcase.copy()
-            new_tc.load(iterator.testcase.filename)
+            try:
+                new_tc.load(iterator.testcase.filename)
+            except LithiumError as exc:
+                # Removing atoms can join pieces into a DDBEGIN/DDEND word that the
+                # loader would now take for a marker. Keep the uncollapsed testcase.
+                LOG.warning("Not collapsing braces this round: %s", exc)
+                return
 
             yield from iterator.try_testcase(new_tc, "Collapse empty braces")
